@@ -1025,7 +1025,7 @@ def average_voltages(
 
     er = idb(ER)  # extinction ratio
     p_avg = idbm(P_avg)  # average input power, in [W]
-    g = idb(G)  # gain of EDFA
+    g = idb(G) if amplify else 1  # gain of EDFA (only used if amplify=True)
 
     p_ON = p_avg * M / (1 + (M-1)/er) # ON slot average optical power, without amplification
     p_OFF = p_ON/er   # OFF slot average optical power, without amplification
